@@ -27,12 +27,12 @@ proof!(c11_exact_5_4, scen::c11::len(5, 4), scen::c11::exact::<5, 4>, 17);
 proof!(c11_exact_0_0, scen::c11::len(0, 0), scen::c11::exact::<0, 0>, 17);
 proof!(c11_exact_3_1, scen::c11::len(3, 1), scen::c11::exact::<3, 1>, 17);
 proof!(c11_exact_2_2, scen::c11::len(2, 2), scen::c11::exact::<2, 2>, 17);
-proof!(c10_generate_0, scen::c10::GEN_LEN, scen::c10::generate::<0>, 40);
-proof!(c10_generate_1, scen::c10::GEN_LEN, scen::c10::generate::<1>, 40);
-proof!(c10_generate_2, scen::c10::GEN_LEN, scen::c10::generate::<2>, 40);
-proof!(c10_generate_3, scen::c10::GEN_LEN, scen::c10::generate::<3>, 40);
-proof!(c10_generate_4, scen::c10::GEN_LEN, scen::c10::generate::<4>, 40);
-proof!(c10_generate_5, scen::c10::GEN_LEN, scen::c10::generate::<5>, 40);
+proof!(c10_generate_0, scen::c10::GEN_LEN, scen::c10::generate::<0, 64>, 40);
+proof!(c10_generate_1, scen::c10::GEN_LEN, scen::c10::generate::<1, 64>, 40);
+proof!(c10_generate_2, scen::c10::GEN_LEN, scen::c10::generate::<2, 64>, 40);
+proof!(c10_generate_3, scen::c10::GEN_LEN, scen::c10::generate::<3, 64>, 40);
+proof!(c10_generate_4, scen::c10::GEN_LEN, scen::c10::generate::<4, 64>, 40);
+proof!(c10_generate_5, scen::c10::GEN_LEN, scen::c10::generate::<5, 64>, 40);
 proof!(c10_points, scen::c10::PTS_LEN, scen::c10::points, 66);
 proof!(c08_step_laws_0, scen::c08::STEP_LEN, scen::c08::step_laws::<0>, 40);
 proof!(c08_step_laws_1, scen::c08::STEP_LEN, scen::c08::step_laws::<1>, 40);
@@ -52,3 +52,47 @@ proof!(c08_hist_avus_2, scen::c08::HIST_LEN, scen::c08::history::<2257, 2>, 40);
 proof!(c08_hist_asas_2, scen::c08::HIST_LEN, scen::c08::history::<2145, 2>, 40);
 proof!(c08_hist_ssuss_2, scen::c08::HIST_LEN, scen::c08::history::<18660, 2>, 40);
 proof!(c08_hist_vvss_0, scen::c08::HIST_LEN, scen::c08::history::<2322, 0>, 40);
+proof!(c04_bind_h1_k1, scen::c04::len(1, 1), scen::c04::bind::<1, 1, 4>, 5);
+proof!(c04_complete_h1_k1, scen::c04::len(1, 1), scen::c04::complete::<1, 1, 4, 1>, 5);
+proof!(c04_bind_h2_k1, scen::c04::len(2, 1), scen::c04::bind::<2, 1, 8>, 6);
+proof!(c04_complete_h2_k1, scen::c04::len(2, 1), scen::c04::complete::<2, 1, 8, 2>, 6);
+proof!(c04_bind_h2_k2, scen::c04::len(2, 2), scen::c04::bind::<2, 2, 8>, 8);
+proof!(c04_complete_h2_k2, scen::c04::len(2, 2), scen::c04::complete::<2, 2, 8, 4>, 8);
+proof!(c04_bind_h3_k1, scen::c04::len(3, 1), scen::c04::bind::<3, 1, 16>, 7);
+proof!(c04_complete_h3_k1, scen::c04::len(3, 1), scen::c04::complete::<3, 1, 16, 3>, 7);
+proof!(c04_bind_h3_k2, scen::c04::len(3, 2), scen::c04::bind::<3, 2, 16>, 10);
+proof!(c04_complete_h3_k2, scen::c04::len(3, 2), scen::c04::complete::<3, 2, 16, 6>, 10);
+proof!(c04_bind_h3_k3, scen::c04::len(3, 3), scen::c04::bind::<3, 3, 16>, 13);
+proof!(c04_complete_h3_k3, scen::c04::len(3, 3), scen::c04::complete::<3, 3, 16, 9>, 13);
+proof!(c04_corrupt_h1, scen::c04::len(1, 1), scen::c04::corrupt_auth::<1, 4, 1>, 5);
+proof!(c04_corrupt_h2, scen::c04::len(2, 1), scen::c04::corrupt_auth::<2, 8, 2>, 6);
+proof!(c04_corrupt_h3, scen::c04::len(3, 1), scen::c04::corrupt_auth::<3, 16, 3>, 7);
+proof!(c05_length_0, scen::c05::LEN_LEN, scen::c05::length::<0>, 8);
+proof!(c05_length_1, scen::c05::LEN_LEN, scen::c05::length::<1>, 8);
+proof!(c05_length_2, scen::c05::LEN_LEN, scen::c05::length::<2>, 8);
+proof!(c05_length_3, scen::c05::LEN_LEN, scen::c05::length::<3>, 8);
+proof!(c05_row_1_f0, scen::c05::row_len(1), scen::c05::row::<1, 0>, 35);
+proof!(c05_row_1_f1, scen::c05::row_len(1), scen::c05::row::<1, 1>, 8);
+proof!(c05_row_2_f0, scen::c05::row_len(2), scen::c05::row::<2, 0>, 67);
+proof!(c05_row_2_f1, scen::c05::row_len(2), scen::c05::row::<2, 1>, 8);
+proof!(c05_row_3_f0, scen::c05::row_len(3), scen::c05::row::<3, 0>, 99);
+proof!(c05_row_3_f1, scen::c05::row_len(3), scen::c05::row::<3, 1>, 8);
+proof!(c05_row_4_f0, scen::c05::row_len(4), scen::c05::row::<4, 0>, 131);
+proof!(c05_row_4_f1, scen::c05::row_len(4), scen::c05::row::<4, 1>, 8);
+proof!(c05_delegate_f0, scen::c05::DELEG_LEN, scen::c05::delegate::<0>, 67);
+proof!(c05_delegate_f1, scen::c05::DELEG_LEN, scen::c05::delegate::<1>, 67);
+proof!(c05_delegate_f2, scen::c05::DELEG_LEN, scen::c05::delegate::<2>, 8);
+proof!(c13_same_s1_m1_h0, 2 * scen::c13::len(1, 1, 0), scen::c13::same_shape::<1, 1, 0>, 10);
+proof!(c13_same_s2_m1_h1, 2 * scen::c13::len(2, 1, 1), scen::c13::same_shape::<2, 1, 1>, 10);
+proof!(c13_same_s2_m2_h0, 2 * scen::c13::len(2, 2, 0), scen::c13::same_shape::<2, 2, 0>, 10);
+proof!(c13_same_s2_m0_h0, 2 * scen::c13::len(2, 0, 0), scen::c13::same_shape::<2, 0, 0>, 10);
+proof!(c13_same_s6_m2_h1, 2 * scen::c13::len(6, 2, 1), scen::c13::same_shape::<6, 2, 1>, 10);
+proof!(c13_diff_s1_m01_h00, scen::c13::len(1, 0, 0) + scen::c13::len(1, 1, 0), scen::c13::diff_shape::<1, 0, 1, 0, 0>, 10);
+proof!(c13_diff_s1_m12_h00, scen::c13::len(1, 1, 0) + scen::c13::len(1, 2, 0), scen::c13::diff_shape::<1, 1, 2, 0, 0>, 10);
+proof!(c13_diff_s1_m11_h01, scen::c13::len(1, 1, 0) + scen::c13::len(1, 1, 1), scen::c13::diff_shape::<1, 1, 1, 0, 1>, 10);
+proof!(c13_diff_s1_m21_h10, scen::c13::len(1, 2, 1) + scen::c13::len(1, 1, 0), scen::c13::diff_shape::<1, 2, 1, 1, 0>, 10);
+proof!(c14_validate, scen::c14::VAL_LEN, scen::c14::validate, 10);
+proof!(c14_verify_2, scen::c14::ver_len(2), scen::c14::verify::<2>, 6);
+proof!(c14_verify_4, scen::c14::ver_len(4), scen::c14::verify::<4>, 8);
+proof!(c14_verify_6, scen::c14::ver_len(6), scen::c14::verify::<6>, 10);
+proof!(c10_generate_3_small, scen::c10::GEN_LEN, scen::c10::generate::<3, 3>, 40);
